@@ -35,9 +35,9 @@ type Case struct {
 	Records []Rec  `json:"records"`
 	Layout  Layout `json:"layout"`
 	// stream
-	Capacity int   `json:"capacity,omitempty"`
-	Yields   []int `json:"yields,omitempty"` // scheduler yields before the i-th receive (cyclic)
-	Procs    int   `json:"gomaxprocs,omitempty"`
+	Capacity int    `json:"capacity,omitempty"`
+	Yields   []int  `json:"yields,omitempty"` // scheduler yields before the i-th receive (cyclic)
+	Procs    int    `json:"gomaxprocs,omitempty"`
 	Via      string `json:"via,omitempty"` // parse | file | gzfile
 }
 
